@@ -12,7 +12,7 @@ RULE = ('Cases = worker class x init_state (None, scalar, container, custom obje
         're-creations passing the state on x parent reads at scheduler-chosen instants x schedule.')
 ASSUMPTIONS = ['"the child reported" is recognised on the parent side by a non-fabricated final outcome (error object or success)']
 
-STATES = [None, 0, 7, 'txt', [1, 2], {'a': [1]}, {'$': 'custom', 'a': 1, 'b': 'x'}]
+STATES = [None, 0, 7, 'txt', [1, 2], {'a': [1]}, {'$': 'custom', 'a': 1, 'b': 'x'}, {'$': 'bytes', 'n': 300000}]
 
 
 def mk_case(ctx, rng, i, kind=None, ending=None, fault=None, policy=None, knobs=None, tag='random'):
@@ -22,9 +22,16 @@ def mk_case(ctx, rng, i, kind=None, ending=None, fault=None, policy=None, knobs=
         policy, knobs = draw_env(rng, tcp=lib.is_remote(kind))
     nb, na = rng.randrange(0, 6), rng.randrange(0, 6)
     vals = [rng.choice(STATES[1:]) for _ in range(nb + na)]
+    if fault is None and lib.is_remote(kind) and rng.random() < 0.4:
+        # slow parent-side frontend thread: stalled while it fetches the final result / state
+        fault = {'kind': 'stall', 'role': 'RemoteWorker._run_frontend', 'any_thread': True,
+                 'qualname': rng.choice(['RemoteWorker._fetch_results', 'PersistentRemoteWorker._fetch_results', 'recv_msg']),
+                 'occ': rng.randrange(1, 6), 'duration': rng.choice([0.05, 0.5, 3.0])}
     return {'kind': kind, 'init': rng.choice(STATES), 'before': vals[:nb], 'after': vals[nb:],
             'ending': ending or rng.choice(['return', 'return', 'exception', 'terminate']), 'fault': fault,
             'chain': rng.randrange(0, 3), 'items': rng.randrange(1, 3), 'policy': policy, 'knobs': knobs or {},
+            'observe': rng.choice(['wait', 'poll-wait', 'poll-wait'] if lib.is_remote(kind) else ['wait', 'wait', 'poll-wait']),
+            'poll_timeout': rng.choice([0, 0, 0.001, 0.01, 0.05]),
             'sched_seed': ctx.case_seed(tag, i)}
 
 
@@ -95,10 +102,33 @@ class Run:
                 if lib.base_kind(kind) == 'thread':
                     kwt['force'] = False
                 r = lib.call_with_deadline(w.terminate, 600.0, **kwt)
-            r = lib.call_with_deadline(w.wait, 600.0, timeout=10)
+            if c.get('observe') == 'poll-wait':
+                # the usual polling loop: while not w.wait(timeout=small): ...
+                r = ('ok', False)
+                for _ in range(2000):
+                    r = lib.call_with_deadline(w.wait, 600.0, timeout=c.get('poll_timeout', 0.01))
+                    if r[0] != 'ok' or r[1] is True:
+                        break
+                    s.sleep(0.001)
+            else:
+                r = lib.call_with_deadline(w.wait, 600.0, timeout=10)
             if not (r[0] == 'ok' and r[1] is True):
                 s.probe('not-dead')
                 return
+            if c.get('observe') == 'poll-wait':
+                got_now = w.user_state        # observed dead: must be synchronised already
+                r4 = lib.read4(w)
+                r4.pop('_result_obj', None)
+                reported = (r4.get('has_error') is False) or (r4.get('has_error') is True and r4.get('error') is not None)
+                sets = [e for e in s.truth[mark:] if e['kind'] == 'user-state-set']
+                last = sets[-1]['value'] if sets else state_now
+                if r4.get('is_alive') is not False:
+                    self.viol('synchronised-at-end', f'is_alive-true-right-after-wait-returned-True:{lib.base_kind(kind)}', r4)
+                    return
+                if reported and got_now != last:
+                    self.viol('synchronised-at-end', f'state-not-synchronised-when-wait-returned-True:{lib.base_kind(kind)}',
+                              {'got': lib.safe_repr(got_now), 'last': lib.safe_repr(last)})
+                    return
             s.sleep(0.05)
             r4 = lib.read4(w)
             r4.pop('_result_obj', None)
